@@ -1,12 +1,63 @@
-/- Drv/C02.lean — driver handler for property C02 (line protocol; core-only imports). -/
+/- Drv/C02.lean — driver handler for property C02 (every rewrite step preserves value). -/
 import FunsorVerif.Core.Sexp
 import FunsorVerif.Core.XR
+import FunsorVerif.Model.TermParse
+import FunsorVerif.Model.C02
 namespace FV.Drv.C02
-open FV
+open FV FV.C02
 
-/-- `args` are the top-level S-expressions following the property tag on the request line. -/
+/-- Compare two value tables cell by cell on the in-range indices of the shape.
+    Answer: `same n` | `differ k CELL1 CELL2` | `undef-lhs k` (spec undefined) | `undef-rhs k CELL1`. -/
+def compareTables (a b : List (Option Sem)) : String :=
+  let rec go : List (Option Sem) → List (Option Sem) → Nat → String
+    | [], [], k => s!"ok same {k}"
+    | none :: _, _ :: _, k => s!"ok undef-lhs {k}"
+    | some x :: _, none :: _, k => s!"ok undef-rhs {k} {semToSexp x}"
+    | some x :: xs, some y :: ys, k =>
+      if semEq x y then go xs ys (k + 1) else s!"ok differ {k} {semToSexp x} {semToSexp y}"
+    | _, _, k => s!"err table-length {k}"
+  go a b 0
+
+def parseIns (ins : Sexp) : Option (List (Name × Nat)) := do
+  let ins ← ins.asList?
+  ins.mapM fun x => match x with
+    | Sexp.list [n, s] => do pure ((← n.asStr?), (← s.asNat?))
+    | _ => none
+
+/--
+  C02 denote TERM INS ENV                 table of the textbook value (shared handler)
+  C02 equiv  REFLECTED RESULT INS ENV     denote both over all points of INS (+ENV) and compare
+  C02 rule   NAME REFLECTED RESULT INS ENV
+        apply the Lean model of rule NAME to REFLECTED; `ok declined` if the model does not fire,
+        else compare denote (model result) with denote RESULT (the implementation's result)
+  C02 fv TERM                             free names
+-/
 def handle (args : List Sexp) : String :=
   match args with
-  | _ => "err unimplemented"
+  | Sexp.atom "denote" :: rest => (handleDenote rest).getD "err bad-args"
+  | [Sexp.atom "equiv", t1, t2, ins, env] =>
+    match parseTerm t1, parseTerm t2, parseIns ins, parseEnv env with
+    | some t1, some t2, some ins, some env =>
+      compareTables (denoteTable t1 ins env) (denoteTable t2 ins env)
+    | none, _, _, _ => "err bad-term-1"
+    | _, none, _, _ => "err bad-term-2"
+    | _, _, _, _ => "err bad-args"
+  | [Sexp.atom "rule", Sexp.atom name, t1, t2, ins, env] =>
+    match parseTerm t1, parseTerm t2, parseIns ins, parseEnv env with
+    | some t1, some t2, some ins, some env =>
+      match ruleByName name with
+      | none => "err unknown-rule"
+      | some r =>
+        match r t1 with
+        | none => "ok declined"
+        | some t' =>
+          -- lhs = implementation result (so `undef-lhs` = implementation result outside the fragment)
+          "ok fired " ++ (compareTables (denoteTable t2 ins env) (denoteTable t' ins env)).drop 3
+    | _, _, _, _ => "err bad-args"
+  | [Sexp.atom "fv", t] =>
+    match parseTerm t with
+    | some t => "ok " ++ toString (Sexp.list (t.fv.map Sexp.str))
+    | none => "err bad-term"
+  | _ => "err bad-request"
 
 end FV.Drv.C02
